@@ -13,6 +13,7 @@
 #include <functional>
 #include <iostream>
 #include <sstream>
+#include <typeinfo>
 #include "pvh.h"
 
 using namespace primitiv;
@@ -220,7 +221,11 @@ static std::string verdict(const std::string &t, const std::string &n) {
 }
 
 // ---- exhaustive small-scope sweep of the composite operators
-template <class Fn> static std::string tryit(Fn f) { try { return f(); } catch (const primitiv::Error &) { return "err"; } }
+template <class Fn> static std::string tryit(Fn f) {
+  try { return f(); }
+  catch (const primitiv::Error &) { return "err"; }
+  catch (const std::exception &e) { return std::string("other-exception:") + typeid(e).name(); }   // e.g. std::bad_alloc: never acceptable
+}
 
 static std::string sweep() {
   devices::Naive dev; Device::set_default(dev);
@@ -232,7 +237,7 @@ static std::string sweep() {
   std::ostringstream first;
   auto cmp = [&](const std::string &what, const std::string &a, const std::string &b) {
     ++n; if (a != "err") ++okc;
-    if (a != b) { ++bad; if (bad <= 3) first << " [" << what << " tensor=" << a.substr(0, 60) << " node=" << b.substr(0, 60) << "]"; }
+    if (a != b || a.compare(0, 15, "other-exception") == 0) { ++bad; if (bad <= 3) first << " [" << what << " tensor=" << a.substr(0, 60) << " node=" << b.substr(0, 60) << "]"; }
   };
   auto nodevals = [](const std::vector<Node> &r) {
     std::string st, s;
@@ -246,7 +251,7 @@ static std::string sweep() {
   };
   for (auto &sx : shapes) {
     for (auto dim : dims) {
-      for (std::uint32_t nn : {0u, 1u, 2u, 3u, 4u}) {
+      for (std::uint32_t nn : {0u, 1u, 2u, 3u, 4u, 2147483648u, 4294967295u}) {
         std::ostringstream w; w << "split_" << sx.to_string() << "_dim=" << dim << "_n=" << nn;
         std::string a = tryit([&] { Tensor x = F::input<Tensor>(sx, data_for(sx)); auto r = F::split(x, dim, nn); std::string s; for (auto &t : r) s += vals(t) + ";"; return s; });
         std::string b = tryit([&] { Graph g; Graph::set_default(g); Node x = F::input<Node>(sx, data_for(sx)); return nodevals(F::split(x, dim, nn)); });
@@ -265,7 +270,7 @@ static std::string sweep() {
         cmp(w.str(), a, b);
       }
     }
-    for (std::uint32_t nn : {0u, 1u, 2u, 3u, 4u, 6u}) {
+    for (std::uint32_t nn : {0u, 1u, 2u, 3u, 4u, 6u, 2147483648u, 4294967295u}) {
       std::ostringstream w; w << "batch_split_" << sx.to_string() << "_n=" << nn;
       std::string a = tryit([&] { Tensor x = F::input<Tensor>(sx, data_for(sx)); auto r = F::batch::split(x, nn); std::string s; for (auto &t : r) s += vals(t) + ";"; return s; });
       std::string b = tryit([&] { Graph g; Graph::set_default(g); Node x = F::input<Node>(sx, data_for(sx)); return nodevals(F::batch::split(x, nn)); });
